@@ -161,6 +161,7 @@ class ModeStatistics:
         labels: np.ndarray,
         dof_fallback: float = DOF_FALLBACK,
         resample_factor: int = 4,
+        n_modes: int = None,
     ) -> "ModeStatistics":
         """
         Fit Student-t distributions to weighted particles per cluster.
@@ -184,11 +185,18 @@ class ModeStatistics:
             Multiplier for resampling particles for robust fitting.
             Each cluster is resampled to `n_cluster * resample_factor` particles.
             Default is 4.
+        n_modes : int, optional
+            Number of clusters of the model that produced ``labels``. When given,
+            mode ``k`` is the fit of the particles labelled ``k`` for every
+            ``k < n_modes`` (so labels index the modes directly); a cluster that
+            attracts none of the particles gets the global fit. When None
+            (default), one mode per unique label, in sorted order.
 
         Returns
         -------
         ModeStatistics
-            Fitted mode statistics with K modes where K = number of unique labels.
+            Fitted mode statistics with K modes where K = number of unique labels
+            (or ``n_modes``).
 
         Notes
         -----
@@ -210,10 +218,17 @@ class ModeStatistics:
         covariances = []
         degrees_of_freedom = []
 
-        unique_labels = np.unique(labels)
+        if n_modes is None:
+            unique_labels = np.unique(labels)
+        else:
+            unique_labels = np.arange(max(int(n_modes), int(np.max(labels)) + 1))
         for label in unique_labels:
             # Extract particles for this cluster
             idx_cluster = np.where(labels == label)[0]
+            if len(idx_cluster) == 0:
+                # No particle carries this label: keep the row (labels index the
+                # modes) and fill it with the global fit.
+                idx_cluster = np.arange(len(labels))
             u_cluster = u[idx_cluster]
             weights_cluster = weights[idx_cluster]
             weights_cluster = weights_cluster / np.sum(weights_cluster)
